@@ -40,8 +40,8 @@ def jwks_def_args(path):
 
 def keyfile_crypt(path):
     """crypt_conf whose password and salt live in a key file (init_key_jar with private_path)."""
-    return {"kwargs": {"keys": {"key_defs": [{"type": "OCT", "use": ["enc"], "kid": "password"},
-                                             {"type": "OCT", "use": ["enc"], "kid": "salt"}],
+    return {"kwargs": {"keys": {"key_defs": [{"type": "oct", "bytes": 24, "use": ["enc"], "kid": "password"},
+                                             {"type": "oct", "bytes": 24, "use": ["enc"], "kid": "salt"}],
                                 "private_path": path, "read_only": False}, "iterations": 1}}
 
 
